@@ -5,16 +5,19 @@
   the farthest-vertex fold, the inductions over `computeRdp`, the linked-list invariants of
   Visvalingam-Whyatt): GeoProofs/Lemmas/C09Rdp.lean, GeoProofs/Lemmas/C09Vw.lean; heap order and
   entry bookkeeping of the `BinaryHeap` mirror: GeoProofs/Lemmas/C09PHeap.lean; the queue-coverage
-  loop invariant of `visvalingam_indices`: GeoProofs/Lemmas/C09PExit.lean.
+  loop invariant of `visvalingam_indices`: GeoProofs/Lemmas/C09PExit.lean, of `visvalingam_preserve`:
+  GeoProofs/Lemmas/C09PExitP.lean.
 
   All theorems hold for every `INITIAL_MIN` (`mn`), every coordinate list (repeated, collinear,
   back-tracking vertices, closed rings, 0-3 vertices) and every tolerance.
 -/
 import GeoModel.Simplify
+import GeoModel.Ops.C09
 import GeoProofs.Lemmas.C09Rdp
 import GeoProofs.Lemmas.C09Vw
 import GeoProofs.Lemmas.C09PHeap
 import GeoProofs.Lemmas.C09PExit
+import GeoProofs.Lemmas.C09PExitP
 import Mathlib.Tactic.NormNum
 
 namespace Geo.Proofs.C09
@@ -317,6 +320,24 @@ example : visvalingam [⟨5, 2⟩, ⟨3, 8⟩, ⟨6, 20⟩, ⟨7, 25⟩, ⟨10, 
 
 example : (0 : Rat) < 30 := by norm_num
 
+private theorem areasAbove_of_triples (eps : Rat) : ∀ (l : List Pt),
+    (∀ (pre post : List Pt) (a b c : Pt), l = pre ++ a :: b :: c :: post → eps < triArea a b c) →
+    Geo.Ops.C09.areasAbove eps l = true
+  | [], _ => rfl
+  | [_], _ => rfl
+  | [_, _], _ => rfl
+  | a :: b :: c :: t, h => by
+    simp only [Geo.Ops.C09.areasAbove, Bool.and_eq_true, decide_eq_true_eq]
+    refine ⟨h [] t a b c rfl, areasAbove_of_triples eps (b :: c :: t) ?_⟩
+    intro pre post a' b' c' hl
+    exact h (a :: pre) post a' b' c' (by rw [hl]; rfl)
+
+/-- [T] the clause `vw-area-not-above-eps` that the driver's checker (`Geo.Ops.C09.areasAbove`)
+evaluates on every implementation output of `simplify_vw` can never fail on the model's output. -/
+theorem vw_exit_invariant_checker (cs : List Pt) (eps : Rat) (he : 0 < eps) :
+    Geo.Ops.C09.areasAbove eps (visvalingam cs eps) = true :=
+  areasAbove_of_triples eps _ (fun pre post a b c h => vw_exit_invariant cs eps he pre post a b c h)
+
 /-- [T] the same for `simplify_vw_idx(ε)`, `ε > 0`. -/
 theorem vw_exit_invariant_simplify_idx (cs : List Pt) (eps : Rat) (he : 0 < eps)
     (pre post : List Nat) (i j k : Nat) (h : simplifyVwIdx cs eps = pre ++ i :: j :: k :: post) :
@@ -431,6 +452,62 @@ theorem vwp_ring (mpts : Nat) (r : List Pt) (eps : Rat) (tree : List Seg) (out :
       rw [h1, h2, hc]
     simp [SM.close, this]
   · intro h4; omega
+
+/-- [T] exit invariant of `simplify_vw_preserve(ε)`, `ε > 0`: when the loop returns (no `assert!`
+fires) and the output has more than `INITIAL_MIN` and more than `MIN_POINTS` coordinates, every
+three consecutive retained vertices span a triangle of area `> ε`. The two size hypotheses are the
+algorithm's own stopping rules, not proof restrictions: the loop also stops when
+`counter <= INITIAL_MIN`, and when the popped triangle intersects the tree and
+`counter <= MIN_POINTS`; `counter` is the number of retained coordinates, so in every other case
+the loop stopped on an empty queue or on a popped minimum above `ε`. Entries demoted to `-ε` by
+`recompute_triangles` are covered (invariant: the live vertex's entry carries its triangle's area
+or `-ε`; at exit all queued areas are `> ε > -ε`). Holds for every content of the shared segment
+tree. -/
+theorem vwp_exit_invariant (imin mpts : Nat) (cs : List Pt) (eps : Rat) (tree : List Seg)
+    (out : List Pt) (tree' : List Seg)
+    (h : visvalingamPreserve imin mpts cs eps tree = some (out, tree'))
+    (he : 0 < eps) (hmin : imin < out.length) (hpts : mpts < out.length)
+    (pre post : List Pt) (a b c : Pt) (hout : out = pre ++ a :: b :: c :: post) :
+    eps < triArea a b c := by
+  unfold visvalingamPreserve at h
+  split at h
+  · rename_i hc
+    rcases hc with hc | hc
+    · simp only [Option.some.injEq, Prod.mk.injEq] at h
+      rw [← h.1] at hout
+      have := congrArg List.length hout
+      simp at this
+      omega
+    · exact absurd hc (not_le.2 he)
+  · rename_i hc
+    split at h
+    · exact absurd h (by simp)
+    · rename_i adj tr hloop
+      simp only [Option.some.injEq, Prod.mk.injEq] at h
+      have hn3 : 3 ≤ cs.length := by omega
+      have hinv := vwpLoop_inv cs eps cs.length imin mpts _ _ _ _ _ adj tr
+        (adjInit_inv _ hn3) (heapFrom_allP (initScores_allP cs)) hloop
+      have hql : (heapFrom (initScores cs)).length = cs.length - 2 := by
+        rw [(heapFrom_heap _).1]; simp [initScores]
+      obtain ⟨hinv2, hex⟩ := vwpLoop_exit cs eps he cs.length imin mpts _ _ _ _ _ adj tr
+        (adjInit_inv _ hn3) (adjInit_inv2 _) (heapFrom_allP (initScores_EP' cs eps)) (heapFrom_heap _).2
+        (initScores_covered cs) (liveCount_init _).symm
+        (by rw [hql, liveCount_init]; unfold vwFuel; omega) hloop
+      have hlen : out.length = liveCount cs.length adj := by
+        rw [← h.1, keep_length adj cs 0, ← List.range_eq_range']; rfl
+      rcases hex with h1 | h1 | h1
+      · omega
+      · omega
+      · rw [← h.1, keep_eq cs (fun i => adj i != (0, 0))] at hout
+        exact triple_of_exit_coords hinv hinv2 h1 pre post a b c hout
+
+/-- non-vacuity: a line string (`INITIAL_MIN = 2`, `MIN_POINTS = 4`) of seven coordinates from
+which `simplify_vw_preserve(3)` removes one; six remain (more than both limits) -/
+example : (visvalingamPreserve 2 4
+    [⟨0, 0⟩, ⟨2, 1⟩, ⟨4, 0⟩, ⟨6, 3⟩, ⟨8, 0⟩, ⟨10, 4⟩, ⟨12, 0⟩] 3
+    (linesOf [⟨0, 0⟩, ⟨2, 1⟩, ⟨4, 0⟩, ⟨6, 3⟩, ⟨8, 0⟩, ⟨10, 4⟩, ⟨12, 0⟩])).map (·.1) =
+      some ([] ++ (⟨0, 0⟩ : Pt) :: ⟨4, 0⟩ :: ⟨6, 3⟩ :: [⟨8, 0⟩, ⟨10, 4⟩, ⟨12, 0⟩]) := by
+  decide +kernel
 
 /-- non-vacuity: the hypothesis of the `vwp_*` theorems is satisfiable on a concrete ring that
 is actually simplified (six coordinates in, four out, as the real code returns) -/
